@@ -11,6 +11,8 @@ import (
 	"fmt"
 	"io"
 	"io/fs"
+	"log"
+	logslog "log/slog"
 	"os"
 	"strings"
 	"syscall"
@@ -113,11 +115,17 @@ var c13classes = []struct {
 	sev  slog.Level
 }{
 	{"Info", slog.InfoLevel}, {"Warn", slog.WarnLevel}, {"Error", slog.ErrorLevel}, {"blank Print (Always)", slog.AlwaysLevel}, {"custom error-device level", c13Swell}, {"Debug", slog.DebugLevel},
+	// the bridged entry points (they reach the writers without passing through the verbs' common tail); in sequences only up to c13bridgedMaxLen calls
+	{"Info through the std log bridge", slog.InfoLevel}, {"Error through a log/slog handler", slog.ErrorLevel},
 }
+
+const c13firstBridged = 6
 
 type c13setup struct {
 	closedFile bool // an always-failing closed file writer is a member of the normal and of the error list
 	l          *slog.Entry
+	std        *log.Logger
+	hl         *logslog.Logger
 	normal     []string
 	errw       []string
 	leveled    map[slog.Level][]string
@@ -175,10 +183,12 @@ func c13build(w *c13world, config int, level slog.Level) *c13setup {
 		l.SetWriter(sh).AddWriter(mk("n2")).SetErrorWriter(sh).AddErrorWriter(mk("e2"))
 		st.normal, st.errw = []string{"shared", "n2"}, []string{"shared", "e2"}
 	}
+	st.hl = logslog.New(slog.NewSlogHandler(l, &slog.HandlerOptions{NoColor: true, NoSource: true}))
 	l.SetLevel(level)
 	slog.VerifRestoreModes(false, false)
 	l.SetColorMode(false)
 	st.l = l
+	st.std = slog.NewLogLogger(l, slog.InfoLevel)
 	return st
 }
 
@@ -192,8 +202,13 @@ func (st *c13setup) selected(sev slog.Level) []string {
 	return st.normal
 }
 
-func c13issue(l *slog.Entry, class int, msg string) {
+func c13issue(st *c13setup, class int, msg string) {
+	l := st.l
 	switch class {
+	case 6:
+		st.std.Print(msg)
+	case 7:
+		st.hl.Error(msg, "k", 1)
 	case 0:
 		l.Info(msg, "k", 1)
 	case 1:
@@ -332,7 +347,7 @@ func c13runOne(cas c13case, prefix []int) (*sched.Execution, *c13world, *c13setu
 				msg = ""
 			}
 			w.msgs = append(w.msgs, msg)
-			c13issue(st.l, c, msg)
+			c13issue(st, c, msg)
 		}
 		// recovery: the destinations work again
 		w.faults = false
@@ -344,7 +359,7 @@ func c13runOne(cas c13case, prefix []int) (*sched.Execution, *c13world, *c13setu
 				msg = ""
 			}
 			w.msgs = append(w.msgs, msg)
-			c13issue(st.l, j, msg)
+			c13issue(st, j, msg)
 		}
 	}
 	vsync.NoPoolChoice = true
@@ -414,6 +429,12 @@ func c13run(c *Ctx) {
 			return
 		}
 		for i := range c13classes {
+			if i >= c13firstBridged || len(p) > 0 && p[0] >= c13firstBridged {
+				// sequences with a bridged call: the bridged call comes first, and they are one call shorter
+				if len(p) > 0 && p[0] < c13firstBridged || len(p) >= maxLen-1 {
+					continue
+				}
+			}
 			rec(append(p, i))
 		}
 	}
